@@ -971,7 +971,7 @@ def do_action(ws, action, sim):
         raise HarnessHang("unknown action %r" % (action,))
 
 
-TERMINAL_ACTIONS = ("break", "raise", "gen_close", "with_exit")
+TERMINAL_ACTIONS = ("break", "raise", "gen_close", "with_exit", "hold")
 
 
 def make_ws(scenario):
@@ -1123,7 +1123,11 @@ def _drive(ws, scenario, sim, tr, on_event):
         tr.ended = "abandon:" + abandon
         tr.abandon_error = None
         try:
-            if abandon == "gen_close":
+            if abandon == "hold":
+                # the consumer stops iterating but keeps the generator object alive (a variable,
+                # a traceback ...); it is finalised later, when the caller drops ``tr.held``
+                tr.held = gen
+            elif abandon == "gen_close":
                 gen.close()
             elif abandon == "raise":
                 # what a for-loop does when its body raises: the generator is
